@@ -409,7 +409,7 @@ impl Default for Config {
             max_schedules: None,
             time_cap: None,
             step_bound: 50_000,
-            hang_secs: 60,
+            hang_secs: 300,
             stack_size: std::env::var("CTL_STACK_KB").ok().and_then(|s| s.parse::<usize>().ok()).map(|k| k << 10).unwrap_or(1 << 20),
         }
     }
